@@ -169,7 +169,7 @@ def run(ctx):
         if not ctx.mine(k):
             continue
         kind = item[0]
-        with ctx.guard(900):
+        with ctx.guard(900 if not thorough else 3600):  # the 20-cell accepted-set items take ~15 min on an idle machine
             if kind == "nadj-graph":
                 _, n, edges = item
                 g = D.mk_graph(n, edges)
